@@ -7,10 +7,16 @@ model (`Model/Window.lean`, import only).  Core Lean only.
   stores the entries with their `(x, y)` already computed by the same two expressions).
 * `Sixel.Draw`: returns without drawing when `s.w > w || s.h > h` for `w, h := win.Size()`; otherwise marks the
   `s.w × s.h` cells with `win.SetCell(x, y, Cell{sixel: true})` and records a placement at `win.Origin()`.
-* `KittyImage.Draw`: records a placement of `k.w × k.h` cells at `win.Origin()`; there is no size test.
+* `KittyImage.Draw`: records a placement of `k.w × k.h` cells at `win.Origin()`; since the F120 repair
+  (/repo 7b23fe1) behind the same size test as `Sixel.Draw`.
+
+Round 3: the leading `if … { return }` statements of both methods are *interpreted* from the regenerated
+`Gen.ImageConsts.kittyGates` / `sixelGates` (`gateFires`, `drawnWith`); a condition the extractor does not know
+is `.unknown` and makes the model never draw (so that the theorems stated for Gen's lists fail visibly).
 -/
 import VaxisModel.Model.Window
 import VaxisModel.Model.Blocks
+import VaxisModel.Gen.ImageConsts
 
 namespace VaxisModel.Model.ImageDraw
 open VaxisModel.Model.Window VaxisModel.Model.Blocks
@@ -20,16 +26,48 @@ open VaxisModel.Model.Window VaxisModel.Model.Blocks
 def blockOps (toCell : BCell → Cell) (cells : List (Nat × Nat × BCell)) : List Op :=
   cells.map fun e => { col := (e.1 : Int), row := (e.2.1 : Int), cell := toCell e.2.2 }
 
-/-- `Sixel.Draw`'s size gate: is the image drawn into this window? (The other two gates — no data yet, still
-    encoding — only make it draw less.) -/
-def sixelDrawn (sw sh : Int) (win : Win) : Bool := !(decide (sw > win.width) || decide (sh > win.height))
+open VaxisModel.Gen.ImageConsts (Gate Cmp Conn)
+
+/-- A source comparison on `int`s. -/
+def cmpInt : Cmp → Int → Int → Bool
+  | .lt, a, b => decide (a < b)
+  | .le, a, b => decide (a ≤ b)
+  | .eq, a, b => decide (a = b)
+  | .ne, a, b => decide (a ≠ b)
+  | .ge, a, b => decide (a ≥ b)
+  | .gt, a, b => decide (a > b)
+
+def connBool : Conn → Bool → Bool → Bool
+  | .and, a, b => a && b
+  | .or, a, b => a || b
+
+/-- Does this `if … { return }` return?  `hasData`: `buf.Len() ≠ 0`; `encoding`: the encoder goroutine is running;
+    `iw × ih`: the image's cell size; `w, h := win.Size()`. -/
+def gateFires (hasData encoding : Bool) (iw ih : Int) (win : Win) : Gate → Bool
+  | .noData => !hasData
+  | .encoding => encoding
+  | .size cw conn ch => connBool conn (cmpInt cw iw win.width) (cmpInt ch ih win.height)
+  | .unknown _ => true
+
+/-- `Draw` reaches its placement code iff no gate returns. -/
+def drawnWith (gates : List Gate) (hasData encoding : Bool) (iw ih : Int) (win : Win) : Bool :=
+  gates.all fun g => !(gateFires hasData encoding iw ih win g)
+
+/-- `Sixel.Draw` of an image that has data and is not being encoded: is it drawn into this window?  (The other two
+    gates only make it draw less.) -/
+def sixelDrawn (sw sh : Int) (win : Win) : Bool := drawnWith VaxisModel.Gen.ImageConsts.sixelGates true false sw sh win
 
 /-- The `SetCell` calls of `Sixel.Draw` (`y` outer, `x` inner). -/
 def sixelOps (sw sh : Int) (mark : Cell) : List Op :=
   (upTo sh).flatMap fun y => (upTo sw).map fun x => { col := x, row := y, cell := mark }
 
-/-- `KittyImage.Draw`: always places (once encoding is done). -/
-def kittyDrawn (_kw _kh : Int) (_win : Win) : Bool := true
+/-- `KittyImage.Draw` once encoding is done: is the placement recorded?  (Since the F120 repair the source has the
+    same size test as `Sixel.Draw`; before it, the list was `[.encoding]` — `Witness/F120.lean`.) -/
+def kittyDrawn (kw kh : Int) (win : Win) : Bool := drawnWith VaxisModel.Gen.ImageConsts.kittyGates true false kw kh win
+
+/-- The cells a `w × h` placement at the window's origin covers, relative to the window: `(dx, dy)` with
+    `0 ≤ dx < w`, `0 ≤ dy < h`. -/
+def placementCovers (w h dx dy : Int) : Prop := 0 ≤ dx ∧ dx < w ∧ 0 ≤ dy ∧ dy < h
 
 /-- The cells a `w × h` placement at the window's origin occupies, relative to the window. -/
 def placementInside (w h : Int) (win : Win) : Prop := w ≤ win.width ∧ h ≤ win.height
